@@ -291,23 +291,12 @@ impl<'arena> Diagnostics<'arena> {
 
     #[inline]
     fn line_col_from_span(&self, src: &str, start: usize) -> (usize, usize, usize, usize) {
-        let line_starts = self.compute_line_starts(src);
-        let line_idx = line_starts.binary_search(&start).unwrap_or_else(|x| x - 1);
-        let line_start = line_starts[line_idx];
-        let line_end = if line_idx + 1 < line_starts.len() {
-            line_starts[line_idx + 1] - 1
-        } else {
-            src.len()
-        };
-        let col = Self::visual_col(&src[line_start..start]) + 1;
-        (line_idx + 1, col, line_start, line_end)
-    }
-
-    fn compute_line_starts(&self, src: &str) -> Vec<usize, &'arena Arena> {
+        // Walk the line starts instead of materialising them: this runs several times per
+        // diagnostic, and a table sized by the source length for every call made rendering
+        // need O(diagnostics x source length) arena memory.
         let haystack = src.as_bytes();
         let len = haystack.len();
-        let mut starts = Vec::with_capacity_in(len, self.arena);
-        starts.push(0);
+        let (mut line_idx, mut line_start, mut line_end) = (0, 0, len);
 
         let mut offset = 0;
         while offset < len {
@@ -317,25 +306,23 @@ impl<'arena> Diagnostics<'arena> {
                 break;
             }
 
-            // handle '\r' (Windows case)
-            if haystack[idx] == b'\r' {
-                if idx + 1 < len && haystack[idx + 1] == b'\n' {
-                    starts.push(idx + 2);
-                    offset = idx + 2;
-                    continue;
-                }
-                // lone '\r' as a newline
-                starts.push(idx + 1);
-                offset = idx + 1;
-                continue;
+            // '\r\n' (Windows case) counts as one break, a lone '\r' as a newline too
+            let next = if haystack[idx] == b'\r' && idx + 1 < len && haystack[idx + 1] == b'\n' {
+                idx + 2
+            } else {
+                idx + 1
+            };
+            if next > start {
+                line_end = next - 1;
+                break;
             }
-
-            // plain '\n' (Unix case)
-            starts.push(idx + 1);
-            offset = idx + 1;
+            line_idx += 1;
+            line_start = next;
+            offset = next;
         }
 
-        starts
+        let col = Self::visual_col(&src[line_start..start]) + 1;
+        (line_idx + 1, col, line_start, line_end)
     }
 
     // We calculate the widest line number so the gutter always lines up,
